@@ -163,6 +163,39 @@ Theorem C07_noreset_refuted :
 Proof. exact noreset_refuted_proof. Qed.
 Print Assumptions C07_noreset_refuted.
 
+(* ---- decoder side (facts regenerated from jdcoefct.c / jddctmgr.c) ---- *)
+Theorem C07_decoder_rules_generated :
+  decompress_data_waits_until_input_row_gt_output_row = true /\ decompress_data_rows_ahead = 1%nat /\
+  idct_marks_table_built_after_quant_table_check = true.
+Proof. repeat split; reflexivity. Qed.
+Print Assumptions C07_decoder_rules_generated.
+
+(* decompress_data: when its "force some input" loop is left, the iMCU row about to be output holds the
+   data of the scan being output (also when the pass was started on the scan still being read) *)
+Theorem C07_output_row_has_scan_data : forall fuel nrows so ro p,
+  let p' := force_input fuel decompress_data_rows_ahead nrows so ro p in
+  must_read decompress_data_rows_ahead so ro p' = false -> row_has_scan_data so ro p'.
+Proof. exact output_row_has_scan_data_proof. Qed.
+Print Assumptions C07_output_row_has_scan_data.
+
+Theorem C07_no_lookahead_refuted :
+  force_input 100 0 6 3 0 (3%nat, 0%nat) = (3%nat, 0%nat) /\ must_read 0 3 0 (3%nat, 0%nat) = false /\
+  ~ row_has_scan_data 3 0 (3%nat, 0%nat).
+Proof. exact no_lookahead_refuted_proof. Qed.
+Print Assumptions C07_no_lookahead_refuted.
+
+(* jddctmgr.c start_pass: whatever output passes came before (also passes started before the component's
+   first scan), a pass for a component with latched table q dequantises with the multipliers of q *)
+Theorem C07_idct_table_from_latched : forall q lats,
+  latch_monotone q (lats ++ [Some q]) -> idct_passes (lats ++ [Some q]) = (true, Some q).
+Proof. exact idct_table_from_latched_proof. Qed.
+Print Assumptions C07_idct_table_from_latched.
+
+Theorem C07_idct_mark_first_refuted :
+  fold_left (idct_start_pass false) [None; Some [16]] (false, None) = (true, None).
+Proof. exact idct_mark_first_refuted_proof. Qed.
+Print Assumptions C07_idct_mark_first_refuted.
+
 (* non-vacuity: the configurations that exist satisfy cfg_ok; concrete round trips *)
 Example C07_cfg_ok_examples : cfg_ok cf16 /\ cfg_ok cf32 /\ cfg_ok cf12.
 Proof. exact cfg_ok_examples. Qed.
